@@ -227,3 +227,87 @@ Theorem C13_v2_empty_file_not_placed : forall (H256 : bytes -> bytes) B, 0 < B -
   e_length e = 0%Z -> e_root e <> Some (BList []) -> v2_entry H256 B pl fm e = [].
 Proof. exact match_v2_empty_file. Qed.
 Print Assumptions C13_v2_empty_file_not_placed.
+
+(* ---------------------------------------------------------------------------------------------- *)
+(* the whole run ON THE FILESYSTEM (Model/RebuildRun.v: the matcher's copypath calls executed in    *)
+(* order on the abstract filesystem of Model/CopyPath.v; a call that raises ends the run)           *)
+(* ---------------------------------------------------------------------------------------------- *)
+From TF Require Import Model.CopyPath Model.RebuildRun Proofs.RebuildRunProofs.
+(*   filemap_reflects f fm    what _index_contents has established: every candidate location is a regular file of f holding
+                              the bytes the filemap shows, named like its key
+     dest_disjoint dest fm    no candidate lies in or under the destination
+     entry_valid e            the entry has components and all of them passed _check_parts (extract_entries_valid: every entry
+                              of every accepted metafile); target dest e = dest ++ components
+     way_free / v1_way_free   nothing but directories (or nothing) stands on the way to an assigned place
+     entries_consistent       no assigned place lies under another assigned place *)
+
+(* v2 / hybrid: the run returns, and EVERY entry for which some indexed candidate verifies and whose place was empty (or held a
+   shorter file) has at its place a file indexed under its name with the recorded length and BEP 52 root -- exactly the bytes d
+   if all verifying candidates carry d (an intact copy is available and the root separates the candidates) *)
+Theorem C13_v2_complete_on_fs : forall (H256 : bytes -> bytes) B, 0 < B -> forall k pl, pl = B * 2 ^ k ->
+  forall (dsize : nat) (fm : filemap) (dest : path) (entries : list entry), Forall entry_valid entries ->
+  forall f : fs, filemap_reflects f fm -> dest_disjoint dest fm ->
+  way_free dest entries f -> entries_consistent entries ->
+  (forall e e', In e entries -> In e' entries -> e_full e' = e_full e -> e' = e) ->
+  exists g : fs, rebuild_v2_run dsize H256 B pl fm dest entries f = Ok g /\
+  forall e, In e entries ->
+    (exists c, indexed fm (text (e_filename e)) c /\ verified H256 B e c) ->
+    (f (target dest e) = None \/
+     exists old, f (target dest e) = Some (File old) /\ (Z.of_nat (length old) < e_length e)%Z) ->
+    (exists l data, indexed fm (text (e_filename e)) (l, data) /\ verified H256 B e (l, data) /\
+                    g (target dest e) = Some (File data)) /\
+    (forall d, (forall c, indexed fm (text (e_filename e)) c -> verified H256 B e c -> snd c = d) ->
+               g (target dest e) = Some (File d)).
+Proof. exact rebuild_v2_restores. Qed.
+Print Assumptions C13_v2_complete_on_fs.
+
+(* v1: a correct metafile of the files `trues` (digests = H1 of the BEP 3 pieces, piece nodes from _map_pieces), an intact copy
+   of every file indexed, clean candidates: the run returns and every file with bytes whose place was empty (or held a shorter
+   file) has exactly its bytes there.  `_partial`: candidates_clean_run (every candidate of a file's name and size IS the file or
+   is chosen for it in no choice verifying a recorded piece) is needed -- without it the statement is false by design (D27) *)
+Theorem C13_v1_complete_partial : forall (H1 : bytes -> bytes) (dsize : nat) (fm : filemap) (dest : path) pl, 0 < pl ->
+  forall (files : list v1_file) (trues : list bytes), map (@length ascii) trues = map vf_length files ->
+  forall f : fs, filemap_reflects f fm -> dest_disjoint dest fm ->
+  intact_copies fm files trues -> candidates_clean_run H1 fm pl files trues -> files_ok files -> v1_way_free dest files f ->
+  exists g : fs, rebuild_v1_run dsize H1 fm dest (nodes H1 pl files trues) f = Ok g /\
+  forall j, j < length files ->
+    let file := nth j files (mk_v1_file String.EmptyString String.EmptyString 0) in
+    0 < vf_length file ->
+    (f (dest ++ parts_of (vf_full file)) = None \/
+     exists old, f (dest ++ parts_of (vf_full file)) = Some (File old) /\ length old < vf_length file) ->
+    g (dest ++ parts_of (vf_full file)) = Some (File (nth j trues [])).
+Proof. exact rebuild_v1_restores_partial. Qed.
+Print Assumptions C13_v1_complete_partial.
+
+(* what the callback is told has been placed is there (run that returned; a run that raises tells nothing after the raise) *)
+Theorem C13_counted_are_present_v2 : forall (H256 : bytes -> bytes) B, 0 < B -> forall k pl, pl = B * 2 ^ k ->
+  forall (dsize : nat) (fm : filemap) (dest : path) (entries : list entry), Forall entry_valid entries ->
+  forall f : fs, filemap_reflects f fm -> dest_disjoint dest fm ->
+  forall g : fs, rebuild_v2_run dsize H256 B pl fm dest entries f = Ok g ->
+  forall s t : path, In (s, t) (v2_reported H256 B pl fm dest entries) ->
+  CopyPath.lookup g t <> None /\ CopyPath.lookup g s = CopyPath.lookup f s.
+Proof. exact rebuild_v2_counted_are_present. Qed.
+Print Assumptions C13_counted_are_present_v2.
+
+Theorem C13_counted_are_present_v1 : forall (H1 : bytes -> bytes) (dsize : nat) (fm : filemap) (dest : path)
+    (nodes : list (bytes * list pathnode)), nodes_relative nodes ->
+  forall f : fs, filemap_reflects f fm -> dest_disjoint dest fm ->
+  forall g : fs, rebuild_v1_run dsize H1 fm dest nodes f = Ok g ->
+  forall t : path, In t (v1_reported H1 fm dest nodes) -> CopyPath.lookup g t <> None.
+Proof. exact rebuild_v1_counted_are_present. Qed.
+Print Assumptions C13_counted_are_present_v1.
+
+(* Assembler.assemble_torrents: the metafiles one after the other with ONE filemap and ONE destination is one run of the
+   concatenated calls, so everything above holds per metafile of the batch; every call's target is present at the end *)
+Theorem C13_batch : forall (H1 H256 : bytes -> bytes) B, 0 < B ->
+  forall (dsize : nat) (fm : filemap) (dest : path) (jobs : list job), Forall (job_ok B) jobs ->
+  forall f : fs, filemap_reflects f fm -> dest_disjoint dest fm ->
+  assemble_run dsize H1 H256 B fm dest jobs f = run_copies_run dsize dest (batch_trace H1 H256 B fm jobs) f /\
+  forall g : fs, assemble_run dsize H1 H256 B fm dest jobs f = Ok g ->
+  forall j l full, In j jobs -> In (l, full) (job_trace H1 H256 B fm j) -> CopyPath.lookup g (join_parts dest full) <> None.
+Proof.
+  exact (fun H1 H256 B HB dsize fm dest jobs J f R D =>
+           conj (assemble_is_one_run H1 H256 B dsize fm dest jobs f)
+                (assemble_counted_are_present H1 H256 B HB dsize fm dest jobs J f R D)).
+Qed.
+Print Assumptions C13_batch.
